@@ -54,8 +54,12 @@ def verify_function(key, want_props=None, cross=False):
             out['wall_s'] = round(time.time() - t0, 3)
             return out
         engines = []
+        restore = apply_class_map(c.class_map)
         eng = Engine(repo, key, B)
-        eng.run()
+        try:
+            eng.run()
+        finally:
+            restore()
         engines.append(eng)
         for lem in LEMMAS:
             if lem.key == key:
@@ -91,6 +95,34 @@ def verify_function(key, want_props=None, cross=False):
         out['error'] = f'{type(ex).__name__}: {ex}\n' + traceback.format_exc()
     out['wall_s'] = round(time.time() - t0, 3)
     return out
+
+
+def apply_class_map(cmap):
+    """Instantiate the static class of reference-typed fields (e.g. every KFACBaseLayer is a
+    KFACEigenLayer) for one verification run; returns the undo function."""
+    from pyvc.contracts import FIELDS
+    from pyvc.values import KRef, KTuple, KDict, KList
+    if not cmap:
+        return lambda: None
+
+    def subst(k):
+        if isinstance(k, KRef) and k.cls in cmap:
+            return KRef(cmap[k.cls])
+        if isinstance(k, KTuple):
+            return KTuple(*[subst(i) for i in k.items])
+        if isinstance(k, KDict):
+            return KDict(subst(k.key), subst(k.val), default=k.default)
+        if isinstance(k, KList):
+            return KList(subst(k.elem))
+        return k
+    saved = dict(FIELDS)
+    for key, kind in list(FIELDS.items()):
+        FIELDS[key] = subst(kind)
+
+    def restore():
+        FIELDS.clear()
+        FIELDS.update(saved)
+    return restore
 
 
 def model_to_dict(m):
